@@ -30,8 +30,9 @@ REQUIRED = ['bipropCheck_sound', 'bipropCheckL_sound', 'infeasible_sound', 'infe
 REQUIRED_COUNTERS = ['transfer_step', 'coef_update', 'zero_cell', 'refusal', 'tie_in_initial_allocation',
                      'zero_vote_party', 'seats_total', 'seats_dict', 'seats_custom', 'd_hondt', 'sainte_lague',
                      'cert_checked_by_lean', 'cut_checked_by_lean', 'large_counts', 'str_keys', 'init_ok_confirmed',
-                     'own_multipliers_certify']
-RULE = ('2-6 districts x 2-6 parties, non-negative integer votes (tiny 0-3, small, mid, up to 10^25; zero cells; zero-vote '
+                     'own_multipliers_certify', 'sparse_dict', 'custom_lr_hare', 'custom_ha_other']
+RULE = ('2-6 districts x 2-6 parties, non-negative integer votes (tiny 0-3, small, mid, up to 10^25; zero cells given as 0 or '
+        'as a missing key; zero-vote '
         'parties), D\'Hondt and Sainte-Lague, seats as a total (1..~5m), explicit per-district dict, or custom apportioner '
         '(LargestRemainder hare, HighestAverages of the other rule, uniform int, dict apportioner); only instances whose two '
         'marginal apportionments are tie-free (real HighestAverages and an independent reference agree on that). '
@@ -47,7 +48,6 @@ NOT_VERIFIED = [
     'only',
     'HighestAverages sorted-list/bisect bookkeeping is modelled as a pool from which the batch of maximal quotients is taken',
     'SIGNPOST_QS lookup: q is read from the real class attribute and passed to the model',
-    'sparse district dicts (a party key missing instead of 0) are not modelled (open finding: KeyError)',
 ]
 UNPROVED = ['total correctness of tie-and-transfer (termination; a feasible instance is never refused): not proved - every '
             'refusal of the real evaluator is certified infeasible by the verified cut checker instead, termination is '
@@ -521,8 +521,8 @@ def nontrivial(case, obs):
 
 def model_line(case):
     import votelib.evaluate.proportional as vp
-    if case.get('keys', 'int') != 'int' or case.get('sparse'):
-        return None
+    if case.get('keys', 'int') != 'int':
+        return None          # str keys: frozenset order depends on the hash seed (certificate-checked only)
     sp = case['seats']
     qv = vp.BiproportionalEvaluator.SIGNPOST_QS.get(case['divisor'])
     if qv is None or (sp['kind'] != 'total' and 'rows' not in sp):
@@ -640,6 +640,8 @@ def _admit(case):
     tags = case['_tags']
     tags.append(case['divisor'])
     tags.append('seats_' + sp['kind'])
+    if sp['kind'] == 'custom':
+        tags.append('custom_' + sp['apportioner'])
     if case.get('keys') == 'str':
         tags.append('str_keys')
     if any(v == 0 for r in V for v in r):
@@ -780,6 +782,9 @@ def _witness_cases():
     yield _mk(None, [[3, 2], [5, 10], [3, 2]], 'd_hondt', {'kind': 'total', 'n': 10}, tags=['witness_7aec924'])
     yield _mk(None, [[3, 2, 0], [5, 10, 0]], 'd_hondt', {'kind': 'total', 'n': 6}, tags=['witness_514f123'])
     yield _mk(None, [[3, 2], [5, 10], [3, 2]], 'd_hondt', {'kind': 'total', 'n': 10}, keys='str', tags=['witness_7aec924'])
+    yield _mk(None, [[3, 0], [5, 10]], 'd_hondt', {'kind': 'total', 'n': 4}, sparse=True, tags=['witness_ac330c6', 'sparse_dict'])
+    yield _mk(None, [[3, 0, 1], [5, 10, 0], [0, 4, 1]], 'sainte_lague', {'kind': 'total', 'n': 5}, sparse=True,
+              tags=['witness_ac330c6', 'sparse_dict'])
 
 
 def generate(rng, tier):
